@@ -6,6 +6,7 @@ param = import_param()
 
 
 class S(param.Parameterized):
+    __len__ = lambda self: 0          # container-like and currently empty: sources are falsy
     v = param.Integer(0, allow_None=True)
     w = param.Integer(1)
 
